@@ -48,12 +48,17 @@ HAZ = [
     ('callee_return', 'marked'), ('dummy_name_capture', 'marked'), ('expr_actual_modified', 'marked'),
     ('absent_optional_ref', 'marked'), ('fun_in_while', 'functions'), ('kind_selected', 'constants'),
     ('autoarr_two_sizes', 'marked'), ('fun_in_elseif', 'functions'), ('fun_return', 'functions'),
-    ('neg_const', 'constants'), ('assumed_shape_lb', 'marked'), ('fun_array_arg', 'elemental'),
+    ('neg_const', 'constants'), ('fun_array_arg', 'elemental'),
     ('fun_in_inline_if', 'elemental'), ('all_functions_with_intrinsics', 'functions'),
     ('fun_keyword_arg', 'functions'), ('const_chain', 'constants'), ('assoc_param', 'constants'),
     ('absent_optional_fun', 'functions'), ('callee_return', 'internal'), ('dummy_name_capture', 'functions'),
     ('nested_same_fun', 'internal'), ('deadcode_simplify', 'composed'),
 ]
+
+
+def setup_worker(tier, ctx):
+    from loki import config
+    config['log-level'] = 'ERROR'
 
 
 def plan(idx, rng):
@@ -256,12 +261,10 @@ def classify(mode, hazard, symptom, detail, case, new_text, exc=None):
         return 'inline:function-in-ELSE-IF-condition'
     if hazard == 'kind_selected' and symptom == 'compile' and re.search(r'_selected_real_kind', lo_new):
         return 'constants:kind-parameter-expression-as-literal-suffix'
-    if hazard == 'neg_const' and symptom in ('compile', 'differ'):
+    if hazard == 'neg_const' and symptom in ('compile', 'reparse'):
         return 'constants:negative-constant-unbracketed'
     if hazard == 'autoarr_two_sizes' and symptom in ('differ', 'compile'):
         return 'inline:hoisted-automatic-array-sized-by-one-call-only'
-    if hazard == 'assumed_shape_lb' and symptom in ('differ', 'compile', 'exception'):
-        return 'inline:assumed-shape-dummy-index-mapping'
     if hazard == 'fun_in_inline_if' and symptom in ('reparse', 'compile', 'differ'):
         return 'inline:function-in-inline-IF-statement'
     if hazard == 'all_functions_with_intrinsics' and symptom == 'exception' and isinstance(exc, AssertionError):
